@@ -646,6 +646,26 @@ class Program:
                     for d in n[1]:
                         if d[2] is not None:
                             from_init(d[2])
+        # one level of parameter flow: `rec->field = param` in g, and g called with a function as that argument
+        pending = []
+        for f in self.funcs:
+            pn = [q[0] for q in f.params]
+            for bid, i, s, n in f.nodes(into_seen=True):
+                if n[0] == "asg" and n[1] == "=":
+                    mf = mem_field(n[2])
+                    r = strip(n[3])
+                    if mf and kind(r) == "var" and r[2] == "p" and r[1] in pn:
+                        pending.append((f.name, pn.index(r[1]), mf))
+        if pending:
+            by = {}
+            for g, idx, mf in pending:
+                by.setdefault(g, []).append((idx, mf))
+            for f in self.funcs:
+                for bid, i, s, n in f.nodes(into_seen=True):
+                    if n[0] == "call" and n[1] in by:
+                        for idx, mf in by[n[1]]:
+                            if idx < len(n[3]):
+                                add(mf, n[3][idx])
         self._fp_targets = t
         return t
 
